@@ -6,9 +6,10 @@ from pyvc.types import parse as T
 
 def build_spec():
     spec = Spec()
-    from . import typesdecl, externals
+    from . import typesdecl, externals, ghost
     typesdecl.declare(spec)
     externals.declare(spec)
+    ghost.declare(spec)
     import importlib
     for mod in MODULES:
         m = importlib.import_module("contracts." + mod)
@@ -16,7 +17,7 @@ def build_spec():
     return spec
 
 
-MODULES = ["c_auxiliary"]
+MODULES = ["c_auxiliary", "c_node"]
 
 
 def add(spec, target, **kw):
